@@ -80,24 +80,28 @@ def ensure_deps():
 
 
 def warm_numba(env, scratch):
-    """Compile both variants of the JIT kernel once before fan-out."""
-    marker = Path(env["NUMBA_CACHE_DIR"]) / ".warm"
-    if marker.exists():
-        return
-    Path(env["NUMBA_CACHE_DIR"]).mkdir(parents=True, exist_ok=True)
-    code = (
-        "from vlib import boot; boot.boot()\n"
-        "import numpy as np\n"
-        "from bldfm import config\n"
-        "from bldfm.solver import steady_state_transport_solver as S\n"
-        "z=np.linspace(0.1,4.,5); one=np.ones(5)\n"
-        "for nt in (1,2):\n"
-        "    config.NUM_THREADS=nt\n"
-        "    S(np.ones((4,4)),z,(one,one,one,one,one),(40.,40.),4,modes=(4,4),halo=0.,precision='double')\n"
-    )
-    r = subprocess.run([PY, "-c", code], env=env, cwd=scratch, capture_output=True, text=True, timeout=600)
-    if r.returncode == 0:
-        marker.write_text("ok")
+    """Compile both variants of the JIT kernel once before fan-out, in both kernel worlds (see boot.child_env)."""
+    for world, order in (("S", (1, 2)), ("P", (2, 1))):
+        e = dict(env)
+        e["VERIF_KERNEL_WORLD"] = world
+        e["NUMBA_CACHE_DIR"] = env["NUMBA_CACHE_DIR"][:-1] + world
+        marker = Path(e["NUMBA_CACHE_DIR"]) / ".warm"
+        if marker.exists():
+            continue
+        Path(e["NUMBA_CACHE_DIR"]).mkdir(parents=True, exist_ok=True)
+        code = (
+            "from vlib import boot; boot.boot()\n"
+            "import numpy as np\n"
+            "from bldfm import config\n"
+            "from bldfm.solver import steady_state_transport_solver as S\n"
+            "z=np.linspace(0.1,4.,5); one=np.ones(5)\n"
+            f"for nt in {order!r}:\n"
+            "    config.NUM_THREADS=nt\n"
+            "    S(np.ones((4,4)),z,(one,one,one,one,one),(40.,40.),4,modes=(4,4),halo=0.,precision='double')\n"
+        )
+        r = subprocess.run([PY, "-c", code], env=e, cwd=scratch, capture_output=True, text=True, timeout=900)
+        if r.returncode == 0:
+            marker.write_text("ok")
 
 
 def jdefault(o):
@@ -147,6 +151,8 @@ def main(argv=None):
 
 def replay(modname, path, env, scratch):
     rec = json.loads(Path(path).read_text())
+    world = (rec.get("violation") or {}).get("kernel_world") or "S"
+    env = dict(env, VERIF_KERNEL_WORLD=world, NUMBA_CACHE_DIR=env["NUMBA_CACHE_DIR"][:-1] + world)
     shard = Path(scratch) / "replay.json"
     shard.write_text(json.dumps([rec["case"]]))
     out = Path(scratch) / "replay.out"
@@ -183,6 +189,8 @@ def run(pid, modname, tier, seed, env, scratch, nshards, t0):
         (d / "in.json").write_text(json.dumps(sh, default=jdefault))
         e = dict(env)
         e["VERIF_SHARD"] = str(k)
+        e["VERIF_KERNEL_WORLD"] = "P" if k % 2 else "S"
+        e["NUMBA_CACHE_DIR"] = env["NUMBA_CACHE_DIR"][:-1] + e["VERIF_KERNEL_WORLD"]
         e["VERIF_TIER"] = tier
         e["VERIF_SEED"] = str(seed)
         p = subprocess.Popen([PY, "-m", "vlib.worker", modname, str(d / "in.json"), str(d / "out.jsonl")],
@@ -242,6 +250,7 @@ def run(pid, modname, tier, seed, env, scratch, nshards, t0):
             if v is not None and (k_ not in resid or v > resid[k_]):
                 resid[k_] = v
         for v in r.get("violations", []):
+            v.setdefault("kernel_world", r.get("_world"))
             viols.append((bycase.get(r.get("_i")), v))
         if r.get("sample") is not None:
             kind = str(bycase.get(r.get("_i"), {}).get("kind", ""))
@@ -310,6 +319,7 @@ def run(pid, modname, tier, seed, env, scratch, nshards, t0):
         "known_findings_reproduced": {k: len(v) for k, v in known_hit.items()},
         "inconclusive_reasons": inconclusive,
         "verdict": "violated" if new else ("inconclusive" if inconclusive else "held"),
+        "kernel_worlds": dict(collections.Counter(r.get("_world", "S") for r in results)),
         "tree": boot.src_dir(),
         "source_hash": boot.source_hash(),
     }
